@@ -1014,6 +1014,10 @@ class Client():
                                          "".format(location, ex))
             hostname = splits.hostname
             scheme = splits.scheme
+            if not hostname:  # relative location so same scheme host and port
+                hostname = self.requester.hostname
+                port = self.requester.port
+                scheme = self.requester.scheme
             scheme = 'https' if scheme.lower() == 'https' else 'http'
             if scheme == 'https':
                 secured = True  # use tls socket connection
